@@ -252,3 +252,4 @@ Proof.
     change (2 ^ 128)%Z with (Z.of_N (2 ^ 128)). lia. }
   rewrite Hfin. reflexivity.
 Qed.
+
